@@ -373,6 +373,51 @@ theorem true_subdomain (hn rn : List Char) (hdot : hn.head? ≠ some '.')
 example : "sub.localhost".toList.head? ≠ some '.' ∧ ('.' :: "localhost".toList) <:+ "sub.localhost".toList := by
   decide
 
+/-- **`get_host` / `Request.host` with a trusted list: a value or SecurityError, nothing else** — for
+every scheme, Host header (or server fallback), trusted list and IDNA function: the call returns the
+host (default port stripped) exactly when no list is configured or `host_is_trusted` accepts it, and
+otherwise raises `SecurityError`; a configured but *empty* list therefore refuses every Host (it is
+not "no validation"), and so does an absent Host header when the fallback is not listed. -/
+theorem get_host_value_or_security_error (idna : Idna) (scheme : List Char) (hostHeader : Option (List Char))
+    (server : Option (List Char × Option Nat)) (trusted : Option (List (List Char))) :
+    (∀ e, getHost idna scheme hostHeader server trusted = .error e → e = "SecurityError" ∧ trusted ≠ none) ∧
+    (∀ h, getHost idna scheme hostHeader server trusted = .ok h →
+      ∀ tl, trusted = some tl → hostIsTrusted idna (some h) tl = true) ∧
+    (trusted = some [] → getHost idna scheme hostHeader server trusted = .error "SecurityError") := by
+  have hempty : ∀ h : Option (List Char), hostIsTrusted idna h [] = false := by
+    intro h
+    unfold hostIsTrusted
+    cases h with
+    | none => rfl
+    | some v =>
+      cases v with
+      | nil => rfl
+      | cons c t =>
+        simp only
+        cases idna (stripPort (c :: t)) <;> simp [matchRefs]
+  cases trusted with
+  | none => simp [getHost]
+  | some tl =>
+    simp only [getHost]
+    generalize stripDefaultPort scheme _ = host
+    cases hb : hostIsTrusted idna (some host) tl with
+    | true =>
+      refine ⟨by simp, ?_, ?_⟩
+      · intro h hh tl' ht
+        simp only [if_true, Except.ok.injEq] at hh
+        simp only [Option.some.injEq] at ht
+        subst hh ht
+        exact hb
+      · intro ht
+        simp only [Option.some.injEq] at ht
+        subst ht
+        rw [hempty] at hb
+        cases hb
+    | false => simp
+
+example : getHost asciiIdna "http".toList (some "evil.example".toList) none (some []) = .error "SecurityError" := by
+  rfl
+
 /-! ### bracketed IPv6 literals (F20c, repaired by ede13ce) -/
 
 /-- **What `_strip_port` removes**: from `[body]rest` (no `]` inside `body`) only a `:port` directly
